@@ -65,7 +65,7 @@ class Line:
         while i < len(ev):
             if ev[i] in ("new", "close", "gone", "kbd", "xnew", "xinit", "xdrop") and i + 1 < len(ev):
                 self.events.append((ev[i], ev[i + 1])); i += 2
-            elif ev[i] in ("hook", "ret", "fault", "uac", "xclose") and i + 2 < len(ev):
+            elif ev[i] in ("hook", "ret", "fault", "uac", "xclose", "wouldhang") and i + 2 < len(ev):
                 self.events.append((ev[i], ev[i + 1], ev[i + 2])); i += 3
             else:
                 self.events.append((ev[i],)); i += 1
@@ -132,6 +132,8 @@ def oracle(script, impl, stderr="", faulted=()):
                 # the data goes to the close hook, or (extension disabled) to rfbDisableExtension's free()
                 xclosed[e[1]] = xclosed.get(e[1], 0) + 1
                 if xclosed[e[1]] > xnew.get(e[1], 0): bad.append(("extension close hook got data %d times for %s (op %r)" % (xclosed[e[1]], e[1], op), e[1]))
+            if e[0] == "wouldhang":
+                bad.append(("the server would block forever in %s() on the blocking socket of %s (op %r)" % (e[2], e[1], op), e[1]))
             if e[0] == "uac": bad.append(("descriptor of %s used after close (%s) at op %r" % (e[1], e[2], op), e[1]))
             if e == ("gone", "?") or e[:2] == ("hook", "?"): bad.append(("callback for unknown client at op %r" % op, None))
             if e[0] == "pump-cap": bad.append(("event loop does not come to rest at op %r" % op, None))
@@ -217,7 +219,8 @@ def leak_summary(stderr):
 
 # ------------------------------------------------------------------------------------ running
 def run_impl(ctx, h, script):
-    rc, lines, err = ctx.run_lines(h, script, timeout=120,
+    # the harness' own watchdog (60 s per op) fires first and names the op
+    rc, lines, err = ctx.run_lines(h, script, timeout=150,
                                    env={"ASAN_OPTIONS": "detect_leaks=1:abort_on_error=0:allocator_may_return_null=1:exitcode=0"})
     return rc, lines, err
 
@@ -255,6 +258,8 @@ def annotate(script, impl, benign_x=True, kind=None):
 def check_script(ctx, h, d, script, variant, what, base=None):
     """-> dict(impl, model, failures[], faulted set, defects predicted by the model)"""
     res = {"impl": [], "model": [], "failures": [], "faulted": set(), "defects": []}
+    if getattr(ctx, "c12_abort", False):
+        return res          # enough crashes/hangs seen: the verdict is in, do not spend hours on the rest
     rc, impl, err = run_impl(ctx, h, script)
     res["impl"] = impl
     sl = script.splitlines()
@@ -583,6 +588,7 @@ def run(ctx):
     fails, samples = [], []
     dist = {"ops": {}, "fault_kinds": {}, "fault_calls": {}, "endings": {}, "defects_seen": {}, "teardown_paths": {}}
     evals, nontrivial = 0, set()
+    crashes = [0]
 
     def account(script, impl):
         for l in script.splitlines():
@@ -616,8 +622,13 @@ def run(ctx):
 
     def absorb(script, r):
         nonlocal evals
+        if not r["impl"] and not r["failures"]:
+            return           # skipped after the run was cut short
         evals += 1
         account(script, r["impl"])
+        if sum(1 for f in r["failures"] if f["kind"] == "crash"):
+            crashes[0] += 1
+            if crashes[0] >= 3: ctx.c12_abort = True
         for f in r["failures"]:
             fid = f.get("finding")
             if fid:
